@@ -20,8 +20,8 @@ RULE = (
     "wide signatures with 5..8 parameters. Every argument and default is a unique object (defaults also from a hostile pool: None, "
     "an object whose __eq__/__ne__ claim equality with everything). On each function a precondition asking for everything "
     "(+_ARGS,_KWARGS), one precondition per single parameter, a snapshot capture, a postcondition (+result, OLD) and an error "
-    "factory are attached; a twin function asks for a name that is not a parameter. Oracle: inspect.signature(bare twin).bind + "
-    "apply_defaults and the object the body itself received (identity). Non-trivial = call with at least one named parameter; "
+    "factory are attached; a twin function asks for a name that is not a parameter. Oracle: what an undecorated twin of the "
+    "function receives for the same call and the object the body itself received (identity). Non-trivial = call with at least one named parameter; "
     "distinct = (signature, call shape, callable kind)."
 )
 ASSUMPTIONS = ["inspect.signature().bind is Python's binding semantics", "probes asking for the variadic parameter names themselves are a silent zone"]
@@ -226,12 +226,14 @@ def run_batch(w, batch: List[Tuple[str, List[Dict[str, Any]], str]], exhaustive_
                 kwargs = {k: Tok("k_" + k) for k in kws}
                 # the function underneath a bound method receives the instance / class as its first positional argument
                 args_seen = args if kind in ("function", "async") else (inst,) + args
+                # ground truth for "Python can bind the call" and for the binding itself: calling the bare twin, which
+                # returns what it received (inspect.Signature.bind wrongly rejects a keyword named like a defaulted
+                # positional-only parameter that is captured by **kwargs)
                 try:
-                    bound = sig.bind(*args, **kwargs)
+                    bound_arguments = bare(*args, **kwargs)
                 except TypeError:
                     w.count("shapes_rejected_by_python")
                     continue
-                bound.apply_defaults()
                 hub.reset()
                 hub.truth = {"post_" + fid: False}
                 exc = None
@@ -258,9 +260,9 @@ def run_batch(w, batch: List[Tuple[str, List[Dict[str, Any]], str]], exhaustive_
                 body_got = body_ev[0].got
                 # the body must agree with Python's binder (sanity of the harness and transparency of the wrapper)
                 for n in names:
-                    if body_got[n] is not bound.arguments[n]:
+                    if body_got[n] is not bound_arguments[n]:
                         w.violation("C05/body-received-other-object", "body got {}={!r}, binder says {!r}".format(
-                            n, body_got[n], bound.arguments[n]), case)
+                            n, body_got[n], bound_arguments[n]), case)
                 expected_events = 1 + len(names) + 1 + 1 + 1 + 1
                 if len(events) != expected_events:
                     w.violation("C05/probe-count", "expected {} probe events, saw {}".format(expected_events, [repr(e) for e in events]), case)
